@@ -259,14 +259,15 @@ Lemma scan_tok_g_ext f g : (forall d e, f d e = g d e) -> forall fin dt fuel st 
 Proof.
   intros H fin dt. induction fuel as [|n IH]; intros st segs serr; [reflexivity|].
   cbn [scan_tok_g]. rewrite H.
-  match goal with |- context [if ?c then g ?a ?b else Ok More] => destruct (if c then g a b else Ok More) as [[|adv tok]|e|s] end;
-    try reflexivity.
+  match goal with |- context [if ?c then g ?a ?b else Ok More] => destruct (if c then g a b else Ok More) as [[|adv tok]|e|s] end.
   - destruct serr as [e|]; [reflexivity|].
     match goal with |- context [if ?c then (SEnd (Err E_TOOLONG), n) else _] => destruct c end; [reflexivity|].
     match goal with |- context [read_more ?a ?b ?c ?d ?e] => destruct (read_more a b c d e) as [[got sg] se] end.
     apply IH.
   - match goal with |- context [if ?c then (SEnd (Err (set_err serr E_ADVANCE)), n) else _] => destruct c end; [reflexivity|].
     destruct (adv =? 0)%Z; [reflexivity|]. destruct tok; [apply IH|reflexivity].
+  - reflexivity.
+  - reflexivity.
 Qed.
 
 Lemma scan_tok_g_split fin dt : forall fuel st segs serr,
@@ -274,14 +275,15 @@ Lemma scan_tok_g_split fin dt : forall fuel st segs serr,
 Proof.
   induction fuel as [|n IH]; intros st segs serr; [reflexivity|].
   cbn [scan_tok_g scan_tok].
-  match goal with |- context [if ?c then split ?a ?b else Ok More] => destruct (if c then split a b else Ok More) as [[|adv tok]|e|s] end;
-    try reflexivity.
+  match goal with |- context [if ?c then split ?a ?b else Ok More] => destruct (if c then split a b else Ok More) as [[|adv tok]|e|s] end.
   - destruct serr as [e|]; [reflexivity|].
     match goal with |- context [if ?c then (SEnd (Err E_TOOLONG), n) else _] => destruct c end; [reflexivity|].
     match goal with |- context [read_more ?a ?b ?c ?d ?e] => destruct (read_more a b c d e) as [[got sg] se] end.
     apply IH.
   - match goal with |- context [if ?c then (SEnd (Err (set_err serr E_ADVANCE)), n) else _] => destruct c end; [reflexivity|].
     destruct (adv =? 0)%Z; [reflexivity|]. destruct tok; [apply IH|reflexivity].
+  - reflexivity.
+  - reflexivity.
 Qed.
 
 Lemma consume_g_split fin dt : forall rds s acc, consume_g split fin dt rds s acc = consume fin dt rds s acc.
